@@ -125,6 +125,8 @@ type loopInfo struct {
 
 // Exec verifies one function.
 type Exec struct {
+	loopBody map[*ssa.BasicBlock]bool // body of the loop whose head is being havocked (nil: a call)
+	beforeHits map[int]int // before clause index -> number of calls it applied to
 	chanHits map[string]int // before_send / assume_recv clause -> number of communications it applied to
 	atReturnHits map[int]int // at_return clause index -> number of returns it was evaluated at
 	callExcept []string // the same for the call being havocked for
